@@ -160,7 +160,7 @@ class Report:
     def finish(self, replayer=None):
         findings = load_findings()
         known_lines, viol_lines = [], []
-        rdir = os.path.join(VERIF, 'replay', self.prop)
+        rdir = os.path.join(os.environ.get('VERIF_REPLAY_DIR', os.path.join(VERIF, 'replay')), self.prop)
         for (target, clause), cases in sorted(self.viol.items()):
             count = self.clauses.get((target, clause), len(cases))
             idx, desc, config = cases[0]
@@ -225,8 +225,9 @@ class Report:
               'coverage': cov, 'assumptions': self.assumptions, 'wall_s': round(time.time() - self.t0, 2),
               'violations': nviol}
         validate_evidence(ev)
-        os.makedirs(os.path.join(VERIF, 'evidence'), exist_ok=True)
-        with open(os.path.join(VERIF, 'evidence', self.prop + '.json'), 'w') as fh:
+        edir = os.environ.get('VERIF_EVIDENCE_DIR', os.path.join(VERIF, 'evidence'))
+        os.makedirs(edir, exist_ok=True)
+        with open(os.path.join(edir, self.prop + '.json'), 'w') as fh:
             json.dump(ev, fh, indent=1)
 
 
